@@ -2,7 +2,7 @@
 """validate seeds from /tmp/seedout/<id> and store valid ones under seeded/<id> (round given by --round)."""
 import json, os, shutil, subprocess, sys
 V = os.path.dirname(os.path.dirname(os.path.abspath(__file__)))
-rnd = 7
+rnd = 8
 ids = [a for a in sys.argv[1:]]
 for i in ids:
     p = subprocess.run(["python3", V + "/tools/seedcheck.py", "validate", "/tmp/seedout/" + i], capture_output=True, text=True)
